@@ -136,7 +136,7 @@ fn one_history(code: usize, vals: [i32; 4], steps: usize, nkinds: usize, nnames:
 pub fn c19_add_h2(inp: &mut Inp) {
     history(inp, 2, 2, 2, false)
 }
-//@ {"tier":"thorough","unwind":6,"desc":"every history of 3 add() calls over 2 group kinds x 2 names x any value, from an empty container","sym":"one i32 value per step; kinds and names enumerated (64 histories)"}
+//@ {"tier":"experimental","unwind":6,"desc":"every history of 3 add() calls over 2 group kinds x 2 names x any value, from an empty container","sym":"one i32 value per step; kinds and names enumerated (64 histories)"}
 pub fn c19_add_h3(inp: &mut Inp) {
     history(inp, 3, 2, 2, false)
 }
@@ -144,7 +144,7 @@ pub fn c19_add_h3(inp: &mut Inp) {
 pub fn c19_add_preloaded(inp: &mut Inp) {
     history(inp, 2, 2, 2, true)
 }
-//@ {"tier":"thorough","unwind":6,"desc":"every history of 4 add() calls over 2 group kinds x 2 names (256 histories) x any values","sym":"one i32 value per step; kinds and names enumerated"}
+//@ {"tier":"experimental","unwind":6,"desc":"every history of 4 add() calls over 2 group kinds x 2 names (256 histories) x any values","sym":"one i32 value per step; kinds and names enumerated"}
 pub fn c19_add_h4(inp: &mut Inp) {
     history(inp, 4, 2, 2, false)
 }
